@@ -142,6 +142,22 @@ def check_surface(case, ctx):
     ctx.check(_eq_pts([list(q) for q in o3.ctrlpts], [list(q) for q in T.ctrlpts]) and (not o3.rational or list(o3.weights) == list(T.weights))
               and all(_eq_pts([o3.ctrlpts2d[v][u]], [g[u][v]]) for u in range(nu) for v in range(nv)), "transpose-method-views",
               "after Surface.transpose() the control point views are not those of the transposed net")
+    # the documented container form: every member is transposed / flipped like a single surface
+    from geomdl import multi
+    d_b = dict(d)
+    d_b["P"] = [[c + 1.5 for c in q] for q in d["P"]]
+    members = [build.make(d), build.make(d_b)]
+    singles = [operations.transpose(m_) for m_ in members]
+    singles_f = [operations.flip(m_) for m_ in members]
+    cont = build.container(multi.SurfaceContainer, members, case["u"])
+    Tc = operations.transpose(cont)
+    ctx.check(len(Tc) == 2 and all(build.snapshot(a_) == build.snapshot(b_) for a_, b_ in zip(Tc, singles)), "transpose-container",
+              "transpose(container of 2): members differ from the surfaces transposed one by one (sizes %r, expected %r)" % ([build.sizes_of(a_) for a_ in Tc], [build.sizes_of(b_) for b_ in singles]))
+    Fc = operations.flip(cont)
+    ctx.check(len(Fc) == 2 and all(build.snapshot(a_) == build.snapshot(b_) for a_, b_ in zip(Fc, singles_f)), "flip-container",
+              "flip(container of 2): members differ from the surfaces flipped one by one")
+    ctx.check(all(build.snapshot(m_) == s_ for m_, s_ in zip(members, [before, build.snapshot(build.make(d_b))])), "transpose-modified-input",
+              "transpose / flip of a container (no inplace) modified its members")
     # flip
     Fl = operations.flip(obj, inplace=False)
     gF = Fl.ctrlpts2d
